@@ -55,13 +55,13 @@ type stubClient struct {
 	g  *group.Group
 }
 
-func (s *stubClient) Group() *group.Group            { return s.g }
-func (s *stubClient) Addr() net.Addr                 { return nil }
-func (s *stubClient) Id() string                     { return s.id }
-func (s *stubClient) Username() string               { return s.id }
-func (s *stubClient) Init(string, []string)          {}
-func (s *stubClient) Permissions() []string          { return []string{"present"} }
-func (s *stubClient) Data() map[string]interface{}   { return nil }
+func (s *stubClient) Group() *group.Group             { return s.g }
+func (s *stubClient) Addr() net.Addr                  { return nil }
+func (s *stubClient) Id() string                      { return s.id }
+func (s *stubClient) Username() string                { return s.id }
+func (s *stubClient) Init(string, []string)           {}
+func (s *stubClient) Permissions() []string           { return []string{"present"} }
+func (s *stubClient) Data() map[string]interface{}    { return nil }
 func (s *stubClient) Joined(group, kind string) error { return nil }
 func (s *stubClient) Kick(id string, user *string, message string) error {
 	return nil
@@ -77,18 +77,18 @@ func (s *stubClient) PushClient(group, kind, id, username string, perms []string
 // ---- observation state
 
 type presentation struct {
-	src      *srcPkt
-	buf      []byte
-	before   rtpconn.VerifLayer
-	fromNACK bool
-	fromSeq  bool
-	fwd      []byte
-	nfwd     int
-	task     string
-	enterSeq int64
+	src                  *srcPkt
+	buf                  []byte
+	before               rtpconn.VerifLayer
+	fromNACK             bool
+	fromSeq              bool
+	fwd                  []byte
+	nfwd                 int
+	task                 string
+	enterSeq             int64
 	newTopTid, newTopSid bool
-	overlap  bool // another presentation to the same down track was in flight meanwhile
-	newestAtEnter bool
+	overlap              bool // another presentation to the same down track was in flight meanwhile
+	newestAtEnter        bool
 }
 
 type fwdRec struct {
@@ -104,19 +104,19 @@ type recvState struct {
 	attached bool
 	inflight map[string]*presentation // by task id
 	// C01
-	haveHi   bool
-	hi       int64
+	haveHi      bool
+	hi          int64
 	haveHiEnter bool
-	hiEnter  int64
-	tainted  bool // sequence bookkeeping became ambiguous (overlapping presentations)
-	hist     []string // recent presentations (diagnostics)
-	partial  bool // some frame was partly withheld and partly forwarded (not a whole-frame drop pattern)
-	gappy    bool // presentations to this receiver were not a gap-free in-order sequence
-	withheld map[int64]bool
-	nWith    []int64 // sorted withheld exts
-	firstOut map[int64]uint16
-	outExt   map[uint16]int64
-	sent     map[uint16]*fwdRec // first bytes forwarded under an outgoing number
+	hiEnter     int64
+	tainted     bool     // sequence bookkeeping became ambiguous (overlapping presentations)
+	hist        []string // recent presentations (diagnostics)
+	partial     bool     // some frame was partly withheld and partly forwarded (not a whole-frame drop pattern)
+	gappy       bool     // presentations to this receiver were not a gap-free in-order sequence
+	withheld    map[int64]bool
+	nWith       []int64 // sorted withheld exts
+	firstOut    map[int64]uint16
+	outExt      map[uint16]int64
+	sent        map[uint16]*fwdRec // first bytes forwarded under an outgoing number
 	// C02
 	frameFwd  map[int]bool // frame had a forwarded packet
 	frameWith map[int]bool // frame had an in-order withheld packet
@@ -136,21 +136,21 @@ type recvState struct {
 }
 
 type mediaWorld struct {
-	c      *Ctx
-	p      *mediaPlan
-	src    []*srcPkt
-	codec  string
-	mime   string
-	up     *rtpconn.VerifUp
-	upt    *rtpconn.VerifUpTrack
-	tr     *webrtc.TrackRemote
-	rc     *webrtc.RTPReceiver
-	recv   []*recvState
-	byTrk  map[*rtpconn.VerifDownTrack]*recvState
-	inNACK map[string]int
-	nackSet map[string]map[uint16]bool // seqnos named by the NACK a task is answering
-	inSeq  map[string]int
-	readLoopTask string
+	c               *Ctx
+	p               *mediaPlan
+	src             []*srcPkt
+	codec           string
+	mime            string
+	up              *rtpconn.VerifUp
+	upt             *rtpconn.VerifUpTrack
+	tr              *webrtc.TrackRemote
+	rc              *webrtc.RTPReceiver
+	recv            []*recvState
+	byTrk           map[*rtpconn.VerifDownTrack]*recvState
+	inNACK          map[string]int
+	nackSet         map[string]map[uint16]bool // seqnos named by the NACK a task is answering
+	inSeq           map[string]int
+	readLoopTask    string
 	nackWriterTasks map[string]bool
 	// C06
 	delivered  map[int64]bool // pushed towards the server
